@@ -165,7 +165,13 @@ def run_guarded(f):
         r = f()
     except EMDSiftCovergeError as e:
         r = e
+    except Exception as e:      # anything else is not a documented outcome of a sift: reported by the caller
+        _other.append(repr(e))
+        r = e
     return r, _m['stop'], _m['tie']
+
+
+_other = []
 
 
 def check_case(case):
@@ -257,6 +263,9 @@ def check_sift(case):
             elif not np.max(np.abs(got - want)) <= 1e-9 * scale:
                 viols.append(('%s:%s:value' % (fname, 'reverse' if c == 'reverse' else 'scale'),
                               '%s transform %r: max diff %.3g (scale %.3g)' % (tag, c, np.max(np.abs(got - want)), scale)))
+    if _other:
+        viols.append(('sift:raise', '%s: a run raised %s' % (tag, _other[0])))
+        del _other[:]
     out = Outcome(cls='sift:%s' % ('multi' if ncols >= 2 else 'single'), transitions=trans, viols=viols, nontrivial=ncols >= 2)
     out.excluded = judged == 0 and excluded > 0
     return out
@@ -282,7 +291,9 @@ def check_mask(case):
     base, bs, bt = run_guarded(lambda: f(x))
     trans += 1
     if isinstance(base, Exception):
-        return Outcome(cls='converge-error', nontrivial=False)
+        v_ = [('mask:raise', '%s: a run raised %s' % (tag, _other[0]))] if _other else []
+        del _other[:]
+        return Outcome(cls='converge-error', nontrivial=False, viols=v_)
     differs = 0
     for c in MASK_FACTORS:
         got, gs, gt = run_guarded(lambda: f(c * x, c))
@@ -304,6 +315,9 @@ def check_mask(case):
             if got.shape != want.shape or not np.max(np.abs(got - want)) <= 1e-9 * abs(c) * (1 + np.max(np.abs(x))):
                 viols.append(('mask:scale', '%s: factor %r: shapes %r/%r max diff %s' % (
                     tag, c, got.shape, want.shape, np.max(np.abs(got - want)) if got.shape == want.shape else 'n/a')))
+    if _other:
+        viols.append(('mask:raise', '%s: a run raised %s' % (tag, _other[0])))
+        del _other[:]
     if mode == 'abs':
         return Outcome(cls='mask-abs:%s' % ('differs' if differs else 'same'), transitions=trans, viols=viols, nontrivial=differs > 0)
     return Outcome(cls='mask', transitions=trans, viols=viols, nontrivial=base.shape[1] >= 2)
